@@ -79,7 +79,7 @@ fixed('C13', 'HCUS flux limiter guards', 'F2 HCUS: 0/0 = nan at r = -2 (no eps g
 fixed('C11', 'stores a ghost-including initial array as float', 'W5 upwindMean on a CellVariable built from an integer (N+2) array: boundary-face value truncated (np.copy keeps the int dtype)')
 fixed('C03', 'stores a ghost-including initial array as float', 'B8 plotprofile 2D/3D on a CellVariable built from an integer (N+2) array: boundary entries truncated')
 
-known('C17', 'H4', 'advection._fsign/absolute-threshold',
+known('C17', 'H4', 'advection._fsign/absolute-threshold[eps1=1e-16]',
       "_fsign guards the TVD gradient ratios with the absolute threshold eps1=1e-16 that is compared with, and added to, a gradient of dimension "
       "K/L: its output is not homogeneous, so TVD results are unit-independent only while no |dphi| falls below 1e-16 in either unit system. "
       "Not repaired: a relative threshold needs a reference scale that the function does not receive (signature change in 9 callers).")
